@@ -1,5 +1,153 @@
-From Coq Require Import List.
-From GS Require Import Num C10_Model.
-Theorem C10_placeholder : forall (T : Type) (O : NumOps T) (c : Cfg T) (s : MState T), run_evals O c (mkPara true true true nil) None false (n0 O) nil s = Ok s.
-Proof. reflexivity. Qed.
-Print Assumptions C10_placeholder.
+(* C10 — variogram fitting honours constraints.  Statements only; proofs in coq/c10/.
+   FitBook (C10_Model.v) models fit_variogram's bookkeeping; scipy's curve_fit is an oracle: [evs] is the arbitrary finite list
+   of argument vectors at which it evaluated the curve, [popt] what it returned.  No theorem needs any hypothesis on them.
+   [fit_run O true ...] is the bookkeeping of the current (repaired) tree, [fit_run O false ...] that of the pinned tree. *)
+From Coq Require Import Reals QArith List Arith.
+From GS Require Import Num Loops RInst C10_Model C10_Proofs C10_RProofs C10_Fixed C10_Refute.
+Import ListNotations.
+
+(* 1. every number type (IEEE doubles included): the optimiser's path does not matter *)
+Theorem C10_trace_independent :
+  forall (T : Type) (O : NumOps T) (c : Cfg T) (nopt : nat) (sel : list (nat * Sel T)) (sill : SillSpec T) (anis : AnisSpec T)
+         (isdir : bool) (evs1 evs2 : list (list T)) (popt : list T) (s0 : MState T) (r1 r2 : MState T * Dict T),
+  length (m_opt s0) = nopt ->
+  fit_run O true c nopt sel sill anis isdir evs1 popt s0 = Ok r1 ->
+  fit_run O true c nopt sel sill anis isdir evs2 popt s0 = Ok r2 ->
+  r1 = r2.
+Proof. exact @trace_independent. Qed.
+Print Assumptions C10_trace_independent.
+
+(* 2. every number type: len_scale, nugget (no sill), optional arguments and anis that are deselected or fixed keep their values *)
+Theorem C10_fixed_untouched :
+  forall (T : Type) (O : NumOps T) (d0 : T) (c : Cfg T) (nopt : nat) (sel : list (nat * Sel T)) (sill : SillSpec T)
+         (anis : AnisSpec T) (isdir : bool) (evs : list (list T)) (popt : list T) (s0 s' : MState T) (d : Dict T),
+  length (m_opt s0) = nopt -> NoDup (map fst sel) ->
+  fit_run O true c nopt sel sill anis isdir evs popt s0 = Ok (s', d) ->
+  ((forall v, In (1%nat, SFixed v) sel -> m_len s' = v) /\ (In (1%nat, SDesel) sel -> m_len s' = m_len s0))
+  /\ (sill = SillNone ->
+      (forall v, In (2%nat, SFixed v) sel -> m_nug s' = v) /\ (In (2%nat, SDesel) sel -> m_nug s' = m_nug s0))
+  /\ (forall j, (j < nopt)%nat ->
+      (forall v, In ((3 + j)%nat, SFixed v) sel -> aget d0 (m_opt s') j = v)
+      /\ (In ((3 + j)%nat, SDesel) sel -> aget d0 (m_opt s') j = aget d0 (m_opt s0) j))
+  /\ match anis with
+     | AFixed a => m_anis s' = norm_anis O c a
+     | ATrue => isdir = false -> m_anis s' = m_anis s0
+     | AFalse => m_anis s' = m_anis s0
+     end.
+Proof. exact @fixed_untouched. Qed.
+Print Assumptions C10_fixed_untouched.
+
+(* 3. at R: a fixed / deselected variance survives every rescaling of the raw variance by var_factor *)
+Theorem C10_fixed_untouched_var :
+  forall (ora : nat -> list R -> R), (forall args, ora ORA_VARFACTOR args <> 0%R) ->
+  forall (c : Cfg R) (nopt : nat) (sel : list (nat * Sel R)) (anis : AnisSpec R) (isdir : bool) (evs : list (list R))
+         (popt : list R) (s0 s' : MState R) (d : Dict R),
+  length (m_opt s0) = nopt -> NoDup (map fst sel) ->
+  fit_run (Rops ora) true c nopt sel SillNone anis isdir evs popt s0 = Ok (s', d) ->
+  (forall v, In (0%nat, SFixed v) sel -> get_var (Rops ora) s' = v)
+  /\ (In (0%nat, SDesel) sel -> get_var (Rops ora) s' = get_var (Rops ora) s0).
+Proof. exact fixed_untouched_var. Qed.
+Print Assumptions C10_fixed_untouched_var.
+
+(* 4. at R: a prescribed sill is met exactly *)
+Theorem C10_sill_exact :
+  forall (ora : nat -> list R -> R), (forall args, ora ORA_VARFACTOR args <> 0%R) ->
+  forall (c : Cfg R) (nopt : nat) (sel : list (nat * Sel R)) (anis : AnisSpec R) (isdir : bool) (evs : list (list R))
+         (popt : list R) (s0 s' : MState R) (d : Dict R) (v : R),
+  length (m_opt s0) = nopt ->
+  fit_run (Rops ora) true c nopt sel (SillVal v) anis isdir evs popt s0 = Ok (s', d) ->
+  (get_var (Rops ora) s' + m_nug s')%R = v.
+Proof. exact sill_exact. Qed.
+Print Assumptions C10_sill_exact.
+
+(* 5. at R: sill=False keeps the sill the model has once the fixed values are applied *)
+Theorem C10_sill_exact_current :
+  forall (ora : nat -> list R -> R), (forall args, ora ORA_VARFACTOR args <> 0%R) ->
+  forall (c : Cfg R) (nopt : nat) (sel : list (nat * Sel R)) (anis : AnisSpec R) (isdir : bool) (evs : list (list R))
+         (popt : list R) (s0 s' t1 t2 : MState R) (d : Dict R),
+  length (m_opt s0) = nopt ->
+  apply_fixed (Rops ora) c nopt sel s0 = Ok t1 ->
+  oset (set_var (Rops ora) c) (var_target (Rops ora) true sel s0) t1 = Ok t2 ->
+  fit_run (Rops ora) true c nopt sel SillCurrent anis isdir evs popt s0 = Ok (s', d) ->
+  (get_var (Rops ora) s' + m_nug s')%R = (get_var (Rops ora) t2 + m_nug t2)%R.
+Proof. exact sill_exact_current. Qed.
+Print Assumptions C10_sill_exact_current.
+
+(* 6. at R: the returned dictionary equals the model state after the call *)
+Theorem C10_dict_equals_state :
+  forall (ora : nat -> list R -> R), (forall args, ora ORA_VARFACTOR args <> 0%R) ->
+  forall (c : Cfg R) (nopt : nat) (sel : list (nat * Sel R)) (sill : SillSpec R) (anis : AnisSpec R) (isdir : bool)
+         (evs : list (list R)) (popt : list R) (s0 s' : MState R) (d : Dict R),
+  length (m_opt s0) = nopt ->
+  fit_run (Rops ora) true c nopt sel sill anis isdir evs popt s0 = Ok (s', d) ->
+  d_var d = get_var (Rops ora) s' /\ d_len d = m_len s' /\ d_nug d = m_nug s' /\ d_opt d = m_opt s'
+  /\ d_anis d = (if isdir then Some (m_anis s') else None).
+Proof. exact dict_equals_state. Qed.
+Print Assumptions C10_dict_equals_state.
+
+(* 7. every number type: all dictionary entries but the variance are read off the final state *)
+Theorem C10_dict_equals_state_structural :
+  forall (T : Type) (O : NumOps T) (c : Cfg T) (nopt : nat) (sel : list (nat * Sel T)) (sill : SillSpec T) (anis : AnisSpec T)
+         (isdir : bool) (evs : list (list T)) (popt : list T) (s0 s' : MState T) (d : Dict T),
+  length (m_opt s0) = nopt ->
+  fit_run O true c nopt sel sill anis isdir evs popt s0 = Ok (s', d) ->
+  d_len d = m_len s' /\ d_nug d = m_nug s' /\ d_opt d = m_opt s'
+  /\ d_anis d = (if isdir then Some (m_anis s') else None).
+Proof. exact @dict_structural. Qed.
+Print Assumptions C10_dict_equals_state_structural.
+
+(* 8. at R: after a successful call every parameter satisfies its declared (open / closed) bounds *)
+Theorem C10_inside_bounds :
+  forall (ora : nat -> list R -> R),
+  forall (c : Cfg R) (nopt : nat) (sel : list (nat * Sel R)) (sill : SillSpec R) (anis : AnisSpec R) (isdir : bool)
+         (evs : list (list R)) (popt : list R) (s0 s' : MState R) (d : Dict R),
+  length (m_opt s0) = nopt -> check_ok (Rops ora) c s0 = true ->
+  fit_run (Rops ora) true c nopt sel sill anis isdir evs popt s0 = Ok (s', d) ->
+  in_bnd (c_bvar c) (get_var (Rops ora) s') /\ in_bnd (c_blen c) (m_len s') /\ in_bnd (c_bnug c) (m_nug s')
+  /\ Forall (in_bnd (c_banis c)) (m_anis s')
+  /\ (forall j b v, nth_error (c_bopt c) j = Some b -> nth_error (m_opt s') j = Some v -> in_bnd b v).
+Proof. exact inside_bounds. Qed.
+Print Assumptions C10_inside_bounds.
+
+(* 9. at R: the fitted parameters are the optimum that curve_fit returned; the nugget that a sill determines is sill - var *)
+Theorem C10_popt_applied :
+  forall (ora : nat -> list R -> R), (forall args, ora ORA_VARFACTOR args <> 0%R) ->
+  forall (c : Cfg R) (nopt : nat) (sel : list (nat * Sel R)) (sill : SillSpec R) (anis : AnisSpec R) (isdir : bool)
+         (evs : list (list R)) (popt : list R) (s0 s1 s' : MState R) (para : Para) (so : option R) (af : bool) (d : Dict R),
+  length (m_opt s0) = nopt ->
+  pre_para (Rops ora) true c nopt sel sill anis s0 = Ok (s1, para, so, af) ->
+  fit_run (Rops ora) true c nopt sel sill anis isdir evs popt s0 = Ok (s', d) ->
+  let vs := vals_of (Rops ora) c para (af && isdir) popt in
+  (forall v, v_var vs = Some v -> get_var (Rops ora) s' = v /\ (forall sv, so = Some sv -> m_nug s' = (sv - v)%R))
+  /\ (forall v, v_len vs = Some v -> m_len s' = v)
+  /\ (forall v, v_nug vs = Some v -> so = None -> m_nug s' = v)
+  /\ m_opt s' = ov_opts (v_opt vs) 0 (m_opt s1)
+  /\ (forall a, v_anis vs = Some a -> m_anis s' = norm_anis (Rops ora) c a).
+Proof. exact popt_applied. Qed.
+Print Assumptions C10_popt_applied.
+
+(* 10-12. the bookkeeping of the PINNED tree violates the property (rationals, computed) *)
+Theorem C10_sill_exact_refuted :
+  exists (s' : MState Q) (d : Dict Q),
+    check_ok (Qops false) cfg1 st1 = true /\
+    fit_run (Qops false) false cfg1 0 [(1%nat, SDesel)] (SillVal 1) ATrue false [[1 # 2]; [3 # 4]] [1 # 2] st1 = Ok (s', d)
+    /\ ~ (get_var (Qops false) s' + m_nug s' == 1)
+    /\ get_var (Qops false) s' + m_nug s' == 3 # 4.
+Proof. exact sill_refuted. Qed.
+Print Assumptions C10_sill_exact_refuted.
+
+Theorem C10_fixed_var_refuted :
+  exists (s' : MState Q) (d : Dict Q),
+    check_ok (Qops true) cfg1 st1 = true /\
+    fit_run (Qops true) false cfg1 0 [(0%nat, SFixed 2); (2%nat, SDesel)] SillNone ATrue false [[2]; [3]] [2] st1 = Ok (s', d)
+    /\ ~ (get_var (Qops true) s' == 2) /\ ~ (d_var d == get_var (Qops true) s').
+Proof. exact fixed_var_refuted. Qed.
+Print Assumptions C10_fixed_var_refuted.
+
+Theorem C10_deselected_var_refuted :
+  exists (s' : MState Q) (d : Dict Q),
+    check_ok (Qops true) cfg1 st1 = true /\
+    fit_run (Qops true) false cfg1 0 [(0%nat, SDesel); (1%nat, SFixed 2)] SillNone ATrue false [[1 # 3]] [1 # 3] st1 = Ok (s', d)
+    /\ get_var (Qops true) st1 == 1 /\ ~ (get_var (Qops true) s' == 1).
+Proof. exact desel_var_refuted. Qed.
+Print Assumptions C10_deselected_var_refuted.
